@@ -1,5 +1,6 @@
 #!/bin/sh
 # Coverage survey: which library lines the quick (or thorough) workloads never drive.
+# COV_CHILD=1 adds the forked child's counters (then process_start's numbers are approximate).
 # Not a check; a guide for where the monitors are blind.  Scratch output in $1 (default
 # /tmp/cov), removed by the caller.  Usage: tools/coverage.sh [dir] [tier] [ids...]
 set -u
@@ -9,9 +10,10 @@ IDS=${*:-C01 C02 C03 C04 C05 C06 C07 C08 C09 C10 C11 C12 C13 C14 C15 C16 C17 C19
 cd "$(dirname "$0")/.." || exit 2
 rm -rf "$D"; mkdir -p "$D"
 export VERIF_COV=1 VERIF_BUILD="$D/build" VERIF_OUT="$D/out"
+[ -n "${COV_CHILD:-}" ] && export VERIF_COV_CHILD=1
 for p in $IDS; do bin/check "$p" --tier "$T" 2>&1 | tail -1 | cut -c1-110; done
 for cfg in "$D"/build/*/lib; do
   [ -d "$cfg" ] || continue
-  ( cd "$cfg" && for f in *.gcda; do [ -f "$f" ] && gcov -b -o . "$f" >/dev/null 2>&1; done
+  ( cd "$cfg" && for f in *.gcda; do [ -f "$f" ] && gcov -b -c -o . "$f" >/dev/null 2>&1; done
     for f in *.c.gcov; do [ -f "$f" ] && echo "$cfg/$f: $(grep -c '#####' "$f") unexecuted of $(grep -cE '^ +[0-9#]+\*?:' "$f")"; done )
 done
